@@ -1,2 +1,266 @@
-// Package c08: monitor for property C08 (see DESIGN.md section 2).
+// Package c08: hash trees equal the reference Merkle construction (DESIGN.md, C08).
+//
+// Three parts, all differential against internal/refmerkle (RFC 6962 definition,
+// RFC 9162 strict verifiers):
+//
+//	(a) ahseq.go   ahtree driven by PRNG sequences of Append / ResetSize / Sync /
+//	               Close+Open under tiny caches, files and sync thresholds;
+//	(b) htreechk.go htree for every width and leaf;
+//	(c) verdiff.go the four verifiers on honest and altered tuples.
+//
+// Index mapping (read from the code under test, not assumed):
+//   - ahtree leaf n (1-based) is SHA-256(0x00 || payload): reference leaf n-1 over
+//     the raw payload. InclusionProof(i, j) is PATH(i-1, D[0:j]) in RFC order.
+//   - ahtree.ConsistencyProof(i, j), i < j, is PROOF(i, D[0:j]) except that the
+//     seed node is always explicit: when i is a power of two the proof starts with
+//     MTH(D[0:i]) (RFC 9162 2.1.4.2 step 2 re-inserts exactly that term).
+//     For i == j the RFC proof is empty; immudb emits the two children of the
+//     root instead. Both establish only "iRoot == jRoot", which is all that
+//     consistency of a tree with itself means, so for i == j the reference
+//     decision is root equality.
+//   - htree leaf k (0-based) is SHA-256(0x00 || digest): reference leaf k over the
+//     32 digest bytes as payload. InclusionProof.Terms is PATH(k, D[0:width]).
 package c08
+
+import (
+	"crypto/sha256"
+	"fmt"
+	"math/bits"
+	"os"
+	"runtime"
+	"runtime/debug"
+	"strings"
+	"sync"
+
+	"github.com/codenotary/immudb/embedded/ahtree"
+	"github.com/codenotary/immudb/embedded/htree"
+
+	"verifharness/internal/fw"
+	"verifharness/internal/refmerkle"
+)
+
+func init() { fw.RegisterMonitor("C08", "exploration", Run) }
+
+type H = [sha256.Size]byte
+
+func Run(c *fw.Ctx) {
+	c.Rule = "differential against the RFC 6962 definition and the RFC 9162 strict verifiers: (a) ahtree after every step of PRNG sequences " +
+		"append/reset-size/sync/reopen under tiny caches and files: Size, Root, RootAt, DataAt for all n, inclusion and consistency proofs for all 1<=i<=j<=n; " +
+		"(b) htree root and every leaf's proof for every width; (c) verifier decisions on honest and altered tuples. " +
+		"An evaluation is one comparison with the reference or one verifier decision; distinct = structure (tree/verifier, shape class of (i,j), cache/after-op class) " +
+		"x operation x mutation class x observed outcome pair (reference, implementation)"
+	c.Assume("refmerkle implements RFC 6962 2.1 / RFC 9162 2.1.3.2, 2.1.4.2 (self-tested against the certificate-transparency known answers and by cross-checking its proofs against its verifiers)")
+	c.Assume("SHA-256 collisions do not occur among the generated values")
+	c.Assume("for i == j a consistency claim means root equality; immudb's non-RFC two-term proof for that case is not held against it")
+
+	// VERIF_C08_PARTS (development aid only; registered commands never set it) restricts the run to some parts.
+	parts := os.Getenv("VERIF_C08_PARTS")
+	if parts == "" {
+		parts = "abc"
+	} else {
+		c.Note("restricted to parts " + parts)
+	}
+	c.Set("exhaustive_pairs_upto_n", c.N(64, 200))
+	c.Set("htree_widths", len(htreeWidths(c)))
+	if strings.Contains(parts, "a") {
+		ahtreeSequences(c)
+	}
+	if strings.Contains(parts, "b") {
+		htreeDifferential(c)
+	}
+	if strings.Contains(parts, "c") {
+		verifierDifferential(c)
+	}
+}
+
+// parallel runs f(0..n-1) on a bounded pool; a panic of the monitor itself is re-raised in the caller.
+func parallel(n int, f func(k int)) {
+	workers := runtime.NumCPU()
+	if workers > 32 {
+		workers = 32
+	}
+	if workers > n {
+		workers = n
+	}
+	var wg sync.WaitGroup
+	var mu sync.Mutex
+	var perr any
+	next := 0
+	for w := 0; w < workers; w++ {
+		wg.Add(1)
+		go func() {
+			defer wg.Done()
+			defer func() {
+				if r := recover(); r != nil {
+					mu.Lock()
+					if perr == nil {
+						perr = r
+					}
+					mu.Unlock()
+				}
+			}()
+			for {
+				mu.Lock()
+				k := next
+				next++
+				mu.Unlock()
+				if k >= n {
+					return
+				}
+				f(k)
+			}
+		}()
+	}
+	wg.Wait()
+	if perr != nil {
+		panic(perr)
+	}
+}
+
+func isPow2(x uint64) bool { return x != 0 && x&(x-1) == 0 }
+
+// ---- reference decisions in immudb's coordinates -------------------------------------------
+
+// refAhInclusion: ahtree.VerifyInclusion(proof, i, j, leaf, root), i and j 1-based.
+func refAhInclusion(p []H, i, j uint64, leaf, root H) bool {
+	if i == 0 || i > j {
+		return false
+	}
+	return refmerkle.VerifyInclusionStrict(p, i-1, j, leaf, root)
+}
+
+// refAhLast: ahtree.VerifyLastInclusion(proof, i, leaf, root): leaf i is the last of a tree of size i.
+func refAhLast(p []H, i uint64, leaf, root H) bool {
+	if i == 0 {
+		return false
+	}
+	return refmerkle.VerifyInclusionStrict(p, i-1, i, leaf, root)
+}
+
+// refAhConsistency: ahtree.VerifyConsistency(proof, i, j, iRoot, jRoot) with the explicit-seed format.
+func refAhConsistency(p []H, i, j uint64, iRoot, jRoot H) bool {
+	if i == 0 || i > j {
+		return false
+	}
+	if i == j {
+		return iRoot == jRoot
+	}
+	if isPow2(i) {
+		if len(p) == 0 || p[0] != iRoot {
+			return false
+		}
+		p = p[1:]
+	}
+	return refmerkle.VerifyConsistencyStrict(p, i, j, iRoot, jRoot)
+}
+
+// refHtInclusion: htree.VerifyInclusion(&{Leaf, Width, Terms}, digest, root).
+func refHtInclusion(leaf, width int, terms []H, digest, root H) bool {
+	if leaf < 0 || width <= 0 || leaf >= width {
+		return false
+	}
+	return refmerkle.VerifyInclusionStrict(terms, uint64(leaf), uint64(width), refmerkle.LeafHash(digest[:]), root)
+}
+
+// expected ahtree.ConsistencyProof(i, j) for i < j.
+func refAhConsistencyProof(t *refmerkle.Tree, i, j int) []H {
+	p := t.Consistency(i, j)
+	if isPow2(uint64(i)) {
+		p = append([]H{t.RootAt(i)}, p...)
+	}
+	return p
+}
+
+// ---- guarded calls into the code under test ---------------------------------------------
+
+type guarded struct {
+	c *fw.Ctx
+}
+
+func (g guarded) boolCall(site string, f func() bool) (res bool) {
+	defer func() {
+		if r := recover(); r != nil {
+			text := fmt.Sprintf("panic: %v\n%s", r, debug.Stack())
+			g.c.Violation(fw.PanicSignature(text), fmt.Sprintf("%s panicked: %v", site, r), map[string][]byte{"panic.txt": []byte(text)})
+			res = false
+		}
+	}()
+	return f()
+}
+
+func implAhInclusion(g guarded, p []H, i, j uint64, leaf, root H) bool {
+	return g.boolCall("ahtree.VerifyInclusion", func() bool { return ahtree.VerifyInclusion(p, i, j, leaf, root) })
+}
+func implAhLast(g guarded, p []H, i uint64, leaf, root H) bool {
+	return g.boolCall("ahtree.VerifyLastInclusion", func() bool { return ahtree.VerifyLastInclusion(p, i, leaf, root) })
+}
+func implAhConsistency(g guarded, p []H, i, j uint64, iRoot, jRoot H) bool {
+	return g.boolCall("ahtree.VerifyConsistency", func() bool { return ahtree.VerifyConsistency(p, i, j, iRoot, jRoot) })
+}
+func implHtInclusion(g guarded, leaf, width int, terms []H, digest, root H) bool {
+	return g.boolCall("htree.VerifyInclusion", func() bool {
+		return htree.VerifyInclusion(&htree.InclusionProof{Leaf: leaf, Width: width, Terms: terms}, digest, root)
+	})
+}
+
+// ---- small helpers --------------------------------------------------------------------------
+
+func eqProof(a, b []H) bool {
+	if len(a) != len(b) {
+		return false
+	}
+	for i := range a {
+		if a[i] != b[i] {
+			return false
+		}
+	}
+	return true
+}
+
+func proofBytes(p []H) []byte {
+	b := make([]byte, 0, len(p)*sha256.Size)
+	for _, h := range p {
+		b = append(b, h[:]...)
+	}
+	return b
+}
+
+// sizeClass names the shape of a tree size: what matters to the node arithmetic.
+func sizeClass(n uint64) string {
+	switch {
+	case n == 0:
+		return "0"
+	case n == 1:
+		return "1"
+	case isPow2(n):
+		return "2^k"
+	case isPow2(n - 1):
+		return "2^k+1"
+	case isPow2(n + 1):
+		return "2^k-1"
+	}
+	if bits.OnesCount64(n) == 2 {
+		return "2bits"
+	}
+	return "other"
+}
+
+// pairClass names the shape of (i, j) (1-based, i <= j expected; anything else is "bad").
+func pairClass(i, j uint64) string {
+	switch {
+	case i == 0 || i > j:
+		return "bad"
+	case i == j:
+		return "i=j," + sizeClass(j)
+	case isPow2(i):
+		return "i=2^k," + sizeClass(j)
+	}
+	return "i<j," + sizeClass(j)
+}
+
+func ar(b bool) string {
+	if b {
+		return "A"
+	}
+	return "R"
+}
